@@ -40,21 +40,32 @@ func TestVerifC05Node(t *testing.T) {
 	usr1 := make(chan os.Signal, 4)
 	signal.Notify(usr1, syscall.SIGUSR1)
 	for range usr1 {
-		if err := n.raft.Snapshot().Error(); err != nil {
-			fmt.Println("IN-PLACE snapshot:", err)
-			continue
-		}
-		snaps, err := n.fss.List()
-		if err != nil || len(snaps) == 0 {
-			continue
-		}
-		meta, rc, err := n.fss.Open(snaps[0].ID)
-		if err != nil {
-			continue
-		}
-		err = n.raft.Restore(meta, rc, 20*time.Second)
-		rc.Close()
-		fmt.Println("IN-PLACE restore:", err)
+		func() {
+			// raft.Restore drops whatever was applied after the snapshot was taken (a follower
+			// receiving InstallSnapshot never loses anything: the leader's snapshot is ahead of
+			// it), so no write may be applied between the two steps
+			n.gate.Lock()
+			defer n.gate.Unlock()
+			if err := n.raft.Barrier(10 * time.Second).Error(); err != nil {
+				fmt.Println("IN-PLACE barrier:", err)
+				return
+			}
+			if err := n.raft.Snapshot().Error(); err != nil {
+				fmt.Println("IN-PLACE snapshot:", err)
+				return
+			}
+			snaps, err := n.fss.List()
+			if err != nil || len(snaps) == 0 {
+				return
+			}
+			meta, rc, err := n.fss.Open(snaps[0].ID)
+			if err != nil {
+				return
+			}
+			err = n.raft.Restore(meta, rc, 20*time.Second)
+			rc.Close()
+			fmt.Println("IN-PLACE restore:", err)
+		}()
 	}
 }
 
@@ -219,7 +230,7 @@ func c05Round(rep *verifrep.R, seed int64, dir string) {
 			return
 		}
 	}
-	perSender := 25
+	perSender := 40
 	ops := make([][]*c05Op, nS)
 	ctx, cancel := context.WithCancel(context.Background())
 	var wg sync.WaitGroup
@@ -241,7 +252,12 @@ func c05Round(rep *verifrep.R, seed int64, dir string) {
 				if !acked {
 					return
 				}
-				time.Sleep(time.Duration(rng.Intn(15)) * time.Millisecond)
+				if n%4 == 0 {
+					// the acknowledgement got lost on the way: the bridge posts the same id again
+					c.post(senders[i], "PRIVMSG #c :"+op.Payload, op.Cmid)
+					op.Tries++
+				}
+				time.Sleep(time.Duration(rng.Intn(50)) * time.Millisecond)
 			}
 		}()
 	}
@@ -301,7 +317,7 @@ func c05Round(rep *verifrep.R, seed int64, dir string) {
 			faultLog = append(faultLog, "snapshot")
 			time.Sleep(time.Duration(rng.Intn(50)) * time.Millisecond)
 		}
-		if rng.Intn(3) == 0 {
+		if rng.Intn(3) == 0 || (f == 0 && seed%2 == 0) {
 			// in-place restore under load; handlers that still use the replaced stores may take
 			// the process down (it is then restarted like after a kill)
 			nd.mu.Lock()
